@@ -20,16 +20,17 @@ from urllib.parse import unquote
 from mc import core, mgmt, tlc, world as W
 
 NOW = datetime.datetime(2024, 3, 1, 12, 0, 0, tzinfo=datetime.timezone.utc)
-KINDS = ('salt', 'sig', 'trunc', 'splice', 'decode2', 'empty')
+KINDS = ('salt', 'sig', 'trunc', 'splice', 'decode2', 'empty', 'pad-suffix', 'nonalpha', 'lowbits', 'quote')
 SERVICES = {'s1': 'keys', 's2': 'streams'}
 
 
 def constants(tier):
     if tier == 'quick':
-        return {'Cookies': '{"c1","c2"}', 'Services': '{"s1","s2"}', 'Kinds': '{"salt","sig","trunc"}',
+        return {'Cookies': '{"c1","c2"}', 'Services': '{"s1","s2"}', 'Kinds': '{"salt","sig","trunc","lowbits","pad-suffix"}',
                 'MaxTokens': 2, 'MaxSteps': 4}
     return {'Cookies': '{"c1","c2"}', 'Services': '{"s1","s2"}',
-            'Kinds': '{"salt","sig","trunc","splice","decode2","empty"}', 'MaxTokens': 3, 'MaxSteps': 5}
+            'Kinds': '{"salt","sig","trunc","splice","decode2","empty","pad-suffix","nonalpha","lowbits","quote"}', 'MaxTokens': 3,
+            'MaxSteps': 5}
 
 
 _graph = {}
@@ -70,6 +71,21 @@ def tamper(token: str, kind: str, other: str | None):
         return unquote(raw) + ' '
     if kind == 'empty':
         return ''
+    # spellings that a lenient base64 decoder maps to the signature of the original: the token is text, a different
+    # text is a different token
+    if kind == 'pad-suffix':
+        i = raw.rindex('=')
+        return raw[:i + 1] + 'A' + raw[i + 1:]
+    if kind == 'nonalpha':
+        i = len(raw) - 10
+        return raw[:i] + '!' + raw[i:]
+    if kind == 'lowbits':
+        import string
+        alpha = string.ascii_uppercase + string.ascii_lowercase + string.digits + '+/'
+        i = raw.rindex('=') - 1
+        return raw[:i] + alpha[alpha.index(raw[i]) ^ 1] + raw[i + 1:]
+    if kind == 'quote':
+        return raw.replace("'", '"')
     raise ValueError(kind)
 
 
